@@ -32,6 +32,7 @@ RULE = (
 RULE += ' added since: stateful output codecs, corrupted declarations, module-head options (future_imports / imports) around the coding line, get_def(..).render identity of encoded output. the output identities also on templates built by a TemplateLookup that carries output_encoding / encoding_errors. lone surrogates under nine error handlers and ten output codecs through Template, TemplateLookup and get_def. ModuleTemplate and ModuleTemplate.get_def as routes of the unencodable-everywhere scenario.'
 ASSUMPTIONS = ["CPython codecs are the reference; only ASCII-compatible encodings are in scope"]
 MIN_NONTRIVIAL = 200
+RULE += " declaration lines longer than 128 and 200 bytes (text before, or an editor modeline after, the coding declaration)."
 REQUIRED_COUNTERS = ["renders_compared", "expected_compile_errors_seen", "module_reloads", "fresh_process_reloads", "output_encodings_compared", "strict_encode_errors_matched"]
 REQUIRED_COUNTERS += ["unencodable_everywhere_compared"]
 
@@ -134,7 +135,10 @@ def build(codec, decl, body):
     """-> (bytes, kwargs for Template, expectation) expectation: ('ok', decoded_text) | ('error',) | None (cell not applicable)"""
     real = "utf-8" if codec == "utf-8-bom" else codec
     bom = codecs.BOM_UTF8 if codec == "utf-8-bom" else b""
-    comment = "## -*- coding: %s -*-\n" % real
+    # the declaration line may be long: an editor modeline after the declaration, or text before it on the same line
+    style = (len(body) + len(real)) % 3
+    head, tail = [("", ""), ("", " vim: set ft=mako ts=4 sw=4 et tw=120 :" * 5), ("generated by tool %s; " % ("x" * 140), "")][style]
+    comment = "## %s-*- coding: %s -*-%s\n" % (head, real, tail)
     other = "ascii" if real != "ascii" else "utf-8"
     nonascii = any(ord(c) > 127 for c in body)
     if decl == "comment":
@@ -162,11 +166,11 @@ def build(codec, decl, body):
     if decl == "bom_conflict":
         if not bom or not nonascii:
             return None
-        return bom + ("## -*- coding: latin-1 -*-\n" + body).encode("utf-8"), {}, ("error",)
+        return bom + ("## %s-*- coding: latin-1 -*-%s\n" % (head, tail) + body).encode("utf-8"), {}, ("error",)
     if decl == "ascii_lie":
         if not nonascii or real == "ascii" or bom:
             return None
-        return ("## -*- coding: ascii -*-\n" + body).encode(real), {}, ("error",)
+        return ("## %s-*- coding: ascii -*-%s\n" % (head, tail) + body).encode(real), {}, ("error",)
     if decl in ("corrupt", "corrupt_comment"):
         # a byte sequence that the declared codec cannot decode, in the middle of the text
         k = len(body) // 2
